@@ -1379,6 +1379,10 @@ func main() {
 	chNewID := vh.NewChannel("bulk.newid", "seq.NewID(t, (draw<<16)+index) vs SV.BulkTime.newID: MID and RID; draws = single-bit flips over all 64 bits, runs differing only in bits 28..47, random; instants with sub-millisecond parts 0, 1, 123456, 500000, 999999 ns; non-trivial = non-zero draw")
 	orcNewID := vh.NewOracle("bulk.ids", "at one instant, draws that differ in their 48 effective bits must give different IDs (seq.NewID as called by Process); thorough: one bulk of 120000 documents without a time field through the real Ingestor has pairwise distinct IDs; non-trivial = more than one draw")
 	orcOverlap := vh.NewOracle("bulk.overlap", "2..8 overlapping bulks through one Ingestor: the storage client call of each bulk stays in flight (holding the docs/metas blocks it was handed) while the next bulk is processed on the same goroutine; when it finally consumes them the docs block must decode to exactly that bulk's documents and the metas to their sizes; non-trivial = at least two bulks")
+	chHandover := vh.NewChannel("bulk.codec-handover", "VTProtoCodec.Marshal of 2-4 bulk requests one after another (docs sizes around 64 KiB, 100 KiB .. 2 MiB, equal size classes), then Unmarshal of every returned slice: which request each slice still decodes to vs SV.Handover.run stepClone on the same event sequence (by-value hand-over); non-trivial = at least two requests")
+	orcTransport := vh.NewOracle("bulk.transport", "codec: the slice Marshal returned for a request still unmarshals to it after later Marshals; real gRPC: rounds of 4-8 concurrent bulks of 100 KiB - 2 MiB from the real SeqDBClient (VTProto codec registered as in cmd/seq-db) to a fake StoreApiServer that compares every received docs/metas block byte for byte with what the client was handed; non-trivial = several requests")
+	orcBig := vh.NewOracle("bulk.bigbody", "one plain body of about 103 MiB (fixed-size action/document pairs generated on the fly) through the proxy's HTTP router (newIngestorHandler) and the real BulkHandler/Ingestor into a counting client: 200, items = pairs, one store call, the payload holds every document, first and last byte-identical")
+	orcBinary := vh.NewOracle("bulk.binary", "thorough: the real seq-db binary in proxy mode (built from the tree under test) in front of a fake gRPC store that decodes every payload; 9 rounds of 6 concurrent /_bulk posts of 100-800 KiB: every post 200, every posted document arrives exactly once byte for byte, nothing else arrives")
 	orcSingle := vh.NewOracle("bulk.single", "single-binary mode (child process): real storeapi.NewStore + in-memory StoreApiClient + SeqDBClient + bulk.Ingestor + BulkHandler; the store's index workers are parked at c07.aidx.start while a burst of one-document bulks (up to workers + queue length) is accepted, then released, several rounds; every accepted document must be found by its own token exactly once and fetched with its own bytes, and the process must survive; non-trivial = at least one bulk accepted")
 	orcE2E := vh.NewOracle("bulk.e2e", "real HTTP POST /_bulk (plain or gzip) into tests/setup.TestingEnv (ingestor + store, child process), then search by a per-request tag with fetch: accepted => exactly the qualifying documents can be fetched, byte for byte, items = count, ID times by the rule; rejected => nothing can be fetched; non-trivial = at least one document stored")
 
@@ -1431,6 +1435,30 @@ func main() {
 				fmt.Sscanf(f[1], "%d", &n)
 				bigTimelessBulk(n, orcNewID, rep)
 			}
+			if sizes, ok := parseCodec(l); ok {
+				codecCase(sizes, chHandover, orcTransport, rep)
+			}
+			if rounds, conc, sd, ok := parseGrpcBulks(l); ok {
+				grpcBulksCase(rounds, conc, sd, orcTransport, rep)
+			}
+			if f := strings.Fields(l); len(f) == 3 && f[0] == "bigbody" {
+				var pairs, size int
+				fmt.Sscanf(f[1], "%d", &pairs)
+				fmt.Sscanf(f[2], "%d", &size)
+				if pairs > 0 && size >= 32 {
+					bigBodyCase(pairs, size, orcBig, rep)
+				}
+			}
+			if f := strings.Fields(l); len(f) == 4 && f[0] == "binary" {
+				var cc, rr int
+				var sd int64
+				fmt.Sscanf(f[1], "%d", &cc)
+				fmt.Sscanf(f[2], "%d", &rr)
+				fmt.Sscanf(f[3], "%d", &sd)
+				if cc > 0 && cc <= 32 && rr > 0 && rr <= 100 {
+					binaryBulksCase(cc, rr, sd, orcBinary, rep)
+				}
+			}
 			if p, ok := parseSingle(l); ok {
 				runSingle(p, orcSingle, rep)
 			}
@@ -1450,8 +1478,12 @@ func main() {
 		rep.AddOracle(orcE2E)
 		rep.AddOracle(orcSingle)
 		rep.AddChannel(chNewID, o.Driver)
+		rep.AddChannel(chHandover, o.Driver)
 		rep.AddOracle(orcNewID)
 		rep.AddOracle(orcOverlap)
+		rep.AddOracle(orcTransport)
+		rep.AddOracle(orcBig)
+		rep.AddOracle(orcBinary)
 		rep.Write(o.Out)
 		return
 	}
@@ -1844,6 +1876,25 @@ func main() {
 		}
 		rep.AddChannel(chNewID, o.Driver)
 	}
+	if want("bulk.transport") {
+		r := rng.Fork()
+		for _, sizes := range [][]int{{65536 - 40, 65536 - 40}, {65536, 65536}, {65537, 65530}, {70000, 70000, 70000}, {100 << 10, 100 << 10}, {1 << 20, 1 << 20, 1 << 20, 1 << 20},
+			{2 << 20, 2<<20 - 100}, {1000, 1000}, {40000, 90000, 40000, 90000}} {
+			codecCase(sizes, chHandover, orcTransport, rep)
+		}
+		for i := 0; i < o.Pick(10, 100); i++ {
+			n := 60000 + r.Intn(200000)
+			codecCase([]int{n, n - r.Intn(2000), n - r.Intn(2000)}, chHandover, orcTransport, rep)
+		}
+		rep.AddChannel(chHandover, o.Driver)
+		grpcBulksCase(o.Pick(8, 60), 4+r.Intn(5), o.Seed, orcTransport, rep)
+	}
+	if want("bulk.bigbody") {
+		bigBodyCase(101500, 1024, orcBig, rep)
+	}
+	if want("bulk.binary") && o.Thorough() {
+		binaryBulksCase(6, 9, o.Seed, orcBinary, rep)
+	}
 	if want("bulk.overlap") {
 		for rep2 := 0; rep2 < o.Pick(6, 60); rep2++ {
 			overlapCase(2+rep2%7, o.Seed*1000+int64(rep2), orcOverlap, rep)
@@ -1865,6 +1916,9 @@ func main() {
 	rep.AddOracle(orcSingle)
 	rep.AddOracle(orcNewID)
 	rep.AddOracle(orcOverlap)
+	rep.AddOracle(orcTransport)
+	rep.AddOracle(orcBig)
+	rep.AddOracle(orcBinary)
 	rep.AddOracle(orcIndex)
 	rep.AddOracle(orcConfig)
 	rep.AddOracle(orcLines)
